@@ -148,6 +148,7 @@ func Run(r *ev.Run) {
 	}
 	r.RequireAtLeast("owner_replies_equal_reference", 100)
 	r.RequireAtLeast("policy_fields_checked", 300)
+	r.RequireAtLeast("mixed_rows_checked", 20)
 	if MySQLLayer != nil {
 		// the MySQL part: same oracles over the MySQL rig (switches the process-wide SQL dialect, so it runs after the PostgreSQL part)
 		MySQLLayer(r)
@@ -194,6 +195,7 @@ func session(r *ev.Run, rng *gen.Rand, sidx int) {
 		c.Close()
 	}
 	// damaged values: the database flips a byte inside every stored value of one column; the owner reads
+	prevDamage := map[int]map[int]bool{}
 	for ci, col := range t.Cols {
 		if !col.Configured() || rng.Intn(2) == 0 {
 			continue
@@ -211,8 +213,61 @@ func session(r *ev.Run, rng *gen.Rand, sidx int) {
 		})
 		if len(damaged) > 0 {
 			checkReader(r, w, ac, t, "owner-damaged", map[int]map[int]bool{ci: damaged}, history, sidx)
+			prevDamage[ci] = damaged
 		}
 		break
+	}
+	checkMixedRows(r, rng, w, ac, t, prevDamage, history, sidx)
+}
+
+// checkMixedRows: the database damages the values of SOME columns in SOME rows; the owner selects several typed columns in one
+// statement, so that one row mixes revealed fields with fields that fall under their column's failure policy.
+func checkMixedRows(r *ev.Run, rng *gen.Rand, w *c04.World, ac *proxyrig.PGClient, t proxyrig.TableSpec, damaged map[int]map[int]bool, history []string, sidx int) {
+	var typed []int
+	for ci, col := range t.Cols {
+		if col.Configured() {
+			typed = append(typed, ci)
+		}
+	}
+	if len(typed) < 2 {
+		return
+	}
+	for _, ci := range typed {
+		if rng.Intn(2) == 0 || damaged[ci] != nil {
+			continue
+		}
+		ci := ci
+		phase := rng.Intn(2)
+		w.Store.DB.TamperAll(t.Name, t.Cols[ci].Name, func(row int, v fakepg.Value) fakepg.Value {
+			b, ok := v.([]byte)
+			if !ok || len(b) < 60 || row%2 != phase {
+				return v
+			}
+			nb := append([]byte{}, b...)
+			nb[len(nb)-9] ^= 0x10 // inside the encrypted payload
+			if damaged[ci] == nil {
+				damaged[ci] = map[int]bool{}
+			}
+			damaged[ci][row] = true
+			return nb
+		})
+	}
+	if len(damaged) == 0 {
+		return
+	}
+	var noErr []int
+	for _, ci := range typed {
+		if policyOf(t.Cols[ci]) != "error" || damaged[ci] == nil {
+			noErr = append(noErr, ci)
+		}
+	}
+	shuffled := append([]int{}, typed...)
+	rng.Shuffle(len(shuffled), func(i, j int) { shuffled[i], shuffled[j] = shuffled[j], shuffled[i] })
+	for _, sel := range [][]int{typed, shuffled, noErr} {
+		if len(sel) < 2 {
+			continue
+		}
+		checkColumns(r, w, ac, t, "owner-damaged-mixed-row", sel, damaged, history, sidx)
 	}
 }
 
@@ -353,6 +408,154 @@ func checkReader(r *ev.Run, w *c04.World, c *proxyrig.PGClient, t proxyrig.Table
 					}
 					if rd != nil && len(rd.Fields) == 2 && rd.Fields[1].DataTypeOID != typeOID[col.DataType] {
 						r.Violation(sig("policy default_value: column not described as the declared type"), detail(map[string]interface{}{"oid": rd.Fields[1].DataTypeOID}))
+					}
+				}
+			}
+		}
+	}
+}
+
+// checkColumns selects several configured columns in one statement (both result formats) and judges every field:
+// fields the reader can reveal must equal the reference in the declared encoding, the others follow their column's policy.
+func checkColumns(r *ev.Run, w *c04.World, c *proxyrig.PGClient, t proxyrig.TableSpec, reader string, sel []int, damaged map[int]map[int]bool, history []string, sidx int) {
+	srows := w.Store.DB.Snapshot(t.Name)
+	rrows := w.Ref.DB.Snapshot(t.Name)
+	if len(srows) != len(rrows) {
+		return
+	}
+	unrevealable := func(ri, ci int) bool {
+		sv, _ := srows[ri][ci].([]byte)
+		return len(sv) > 0 && damaged[ci][ri]
+	}
+	errExpected := false
+	firstErrRow := -1
+	for ri := range srows {
+		for _, ci := range sel {
+			if policyOf(t.Cols[ci]) == "error" && unrevealable(ri, ci) {
+				errExpected = true
+				if firstErrRow < 0 {
+					firstErrRow = ri
+				}
+			}
+		}
+	}
+	names := ""
+	for _, ci := range sel {
+		names += ", " + t.Cols[ci].Name
+	}
+	sql := fmt.Sprintf("select id%s from %s order by id", names, t.Name)
+	for _, binFmt := range []bool{false, true} {
+		r.Case()
+		var msgs []proxyrig.BackendMsg
+		var err error
+		if binFmt {
+			msgs, err = c.Extended("", sql, nil, nil, nil, []int16{1}, 0)
+		} else {
+			msgs, err = c.Simple(sql)
+		}
+		fmtName := map[bool]string{false: "text", true: "binary"}[binFmt]
+		detail := func(extra map[string]interface{}) map[string]interface{} {
+			m := map[string]interface{}{"session": sidx, "schema": w.Schema, "sql": sql, "history": history, "reader": reader, "reply": describe(msgs), "damaged(column index -> rows)": fmt.Sprint(damaged)}
+			for k, v := range extra {
+				m[k] = v
+			}
+			return m
+		}
+		gsig := func(what string) string {
+			return fmt.Sprintf("%s: reader=%s format=%s columns=%d", what, reader, fmtName, len(sel))
+		}
+		if err != nil {
+			r.Violation(gsig("connection broke while reading"), detail(map[string]interface{}{"err": err.Error()}))
+			return
+		}
+		rows := proxyrig.Rows(msgs)
+		errResp := proxyrig.ErrorOf(msgs)
+		if errExpected {
+			if errResp == nil {
+				r.Violation(gsig("policy error: no error reported for the statement"), detail(nil))
+				continue
+			}
+			for k := range rows {
+				if k >= firstErrRow {
+					r.Violation(gsig("policy error: a row with an unrevealable value was delivered"), detail(map[string]interface{}{"row": k}))
+					break
+				}
+			}
+			r.Count("mixed_row_statements_checked", 1)
+			continue
+		}
+		if errResp != nil {
+			r.Violation(gsig("unexpected error response"), detail(map[string]interface{}{"error": errResp.Message}))
+			continue
+		}
+		if len(rows) != len(srows) {
+			r.Violation(gsig("row count differs"), detail(map[string]interface{}{"got": len(rows), "want": len(srows)}))
+			continue
+		}
+		r.Count("mixed_row_statements_checked", 1)
+		for ri, row := range rows {
+			if len(row) != 1+len(sel) {
+				r.Violation(gsig("field count differs"), detail(nil))
+				break
+			}
+			mixed := false
+			for _, ci := range sel {
+				if unrevealable(ri, ci) != unrevealable(ri, sel[0]) {
+					mixed = true
+				}
+			}
+			if mixed {
+				r.Count("mixed_rows_checked", 1)
+			}
+			for k, ci := range sel {
+				col := t.Cols[ci]
+				pol := policyOf(col)
+				got := row[1+k]
+				sv := srows[ri][ci]
+				svb, _ := sv.([]byte)
+				sig := func(what string) string {
+					return fmt.Sprintf("%s: type=%s kind=%s/%s policy=%s reader=%s format=%s", what, col.DataType, col.Kind, col.Envelope, pol, reader, fmtName)
+				}
+				fd := func(extra map[string]interface{}) map[string]interface{} {
+					extra["row"], extra["column"], extra["position_in_select"] = ri, col.Name, k
+					return detail(extra)
+				}
+				switch {
+				case sv == nil:
+					if got != nil {
+						r.Violation(sig("NULL did not stay NULL"), fd(map[string]interface{}{"got": ev.Hex(got)}))
+					}
+				case len(svb) == 0:
+					// judged by the single-column reads
+				case !unrevealable(ri, ci):
+					want, err := encodeDeclared(col.DataType, plainOf(rrows[ri][ci]), binFmt)
+					if err == nil && !bytes.Equal(got, want) {
+						r.Violation(sig("undamaged value not revealed in the declared type"), fd(map[string]interface{}{"got": ev.Hex(got), "want": ev.Hex(want)}))
+					} else if err == nil {
+						r.Count("mixed_fields_revealed", 1)
+					}
+				case pol == "ciphertext":
+					hexForm := []byte(`\x` + hex.EncodeToString(svb))
+					if !bytes.Equal(got, svb) && !bytes.Equal(got, hexForm) {
+						what := "policy ciphertext: delivered field is not the stored ciphertext"
+						if leaks(got, plainOf(rrows[ri][ci])) {
+							what = "policy ciphertext: plaintext (partly) delivered"
+						}
+						r.Violation(sig(what), fd(map[string]interface{}{"got": ev.Hex(got), "stored": ev.Hex(svb)}))
+					} else {
+						r.Count("policy_fields_checked", 1)
+						r.Distinct(fmt.Sprintf("%s|oid=%v|%s|%s|ciphertext|%s|%s|stored-bytes", col.DataType, col.TypeID != 0, col.Kind, col.Envelope, reader, fmtName))
+					}
+				case pol == "default":
+					want, err := encodeDeclared(col.DataType, defaultBytes(col), binFmt)
+					if err != nil {
+						continue
+					}
+					if !bytes.Equal(got, want) {
+						r.Violation(sig("policy default_value: delivered field is not the configured default in the declared type"), fd(map[string]interface{}{"got": ev.Hex(got), "want": ev.Hex(want), "default": *col.Default}))
+					} else {
+						r.Count("policy_fields_checked", 1)
+						r.Distinct(fmt.Sprintf("%s|oid=%v|%s|%s|default|%s|%s|default-encoded", col.DataType, col.TypeID != 0, col.Kind, col.Envelope, reader, fmtName))
 					}
 				}
 			}
